@@ -544,4 +544,15 @@ theorem scrollrect_margins_tb (fx : Fixes) (caps : Caps) (tc : Int) (rect : Rect
   simp [List.append_assoc]
 
 
+/-! ### Concrete screens for examples and counterexamples -/
+
+/-- A screen with a distinct glyph in every cell (for the non-vacuity examples and the counterexamples). -/
+def cexScreen (lines cols : Int) : VTState :=
+  VTState.init lines cols (fun l c => ⟨(l * cols + c).toNat + 0x100000, -1, false⟩)
+
+/-- A 4x6 screen, cursor at (1,2), background 3, reverse video, DECLRMM set. -/
+def exScreen : VTState := { cexScreen 4 6 with row := 1, col := 2, declrmm := true, rv := true, bg := 3 }
+
+theorem exScreen_wf : Spec.WF exScreen := by constructor <;> decide
+
 end Tickit.XTermDrv
